@@ -53,6 +53,7 @@ fn run(ctx: &Ctx, out: &mut Out) {
         }
     }
     leg_wide(ctx, out);
+    leg_typed_witness(ctx, out);
 }
 
 pub fn nontrivial(p: &Prog) -> bool {
@@ -424,4 +425,97 @@ fn leg_wide(ctx: &Ctx, out: &mut Out) {
         }
     }
     let _ = Tier::Quick;
+}
+
+/// `comp witness inspect_T` (paired with a follower witness), as an unshared tree: inspect_T : T -> 1 destructs the whole of T, so the
+/// witness node's principal target type is exactly T (sum: comp (pair iden unit) (case (take l) (take r));
+/// product: comp (pair (take l) (drop r)) unit).
+pub fn typed_witness_host(t: &RT) -> Dag {
+    fn push(d: &mut Dag, sym: Sym, l: usize, r: usize) -> usize {
+        d.push(Node { sym, l: l as _, r: r as _ });
+        d.len() - 1
+    }
+    fn inspect(d: &mut Dag, t: &RT) -> usize {
+        match t {
+            RT::Unit => push(d, Sym::Unit, 0, 0),
+            RT::Sum(a, b) => {
+                let i = push(d, Sym::Iden, 0, 0);
+                let u = push(d, Sym::Unit, 0, 0);
+                let p = push(d, Sym::Pair, i, u);
+                let l = inspect(d, a);
+                let l = push(d, Sym::Take, l, 0);
+                let r = inspect(d, b);
+                let r = push(d, Sym::Take, r, 0);
+                let c = push(d, Sym::Case, l, r);
+                push(d, Sym::Comp, p, c)
+            }
+            RT::Prod(a, b) => {
+                let l = inspect(d, a);
+                let l = push(d, Sym::Take, l, 0);
+                let r = inspect(d, b);
+                let r = push(d, Sym::Drop, r, 0);
+                let p = push(d, Sym::Pair, l, r);
+                let u = push(d, Sym::Unit, 0, 0);
+                push(d, Sym::Comp, p, u)
+            }
+        }
+    }
+    // pair (comp witness inspect_T) (comp witness inspect_F), F = 2^2 * 1: the second witness follows
+    // the first in the witness stream, so a miscounted first witness cannot hide in the end padding
+    let mut d = vec![];
+    let w = push(&mut d, Sym::Witness, 0, 0);
+    let i = inspect(&mut d, t);
+    let first = push(&mut d, Sym::Comp, w, i);
+    let w2 = push(&mut d, Sym::Witness, 0, 0);
+    let i2 = inspect(&mut d, &RT::prod(&RT::word(1), &RT::unit()));
+    let second = push(&mut d, Sym::Comp, w2, i2);
+    let p = push(&mut d, Sym::Pair, first, second);
+    let u = push(&mut d, Sym::Unit, 0, 0);
+    push(&mut d, Sym::Comp, p, u);
+    d
+}
+
+/// every value of every small witness type (and of the types whose padding flag hangs on one child)
+fn leg_typed_witness(ctx: &Ctx, out: &mut Out) {
+    let leg = "typed-witness";
+    let fam = Fam::Core;
+    let jets = JetCodes::new(fam);
+    let mut tys = types_upto(ctx.tier.pick(3, 4));
+    tys.extend(padding_flag_family(ctx.tier.pick(6, 7)));
+    for t in tys {
+        if !ctx.mine() {
+            continue;
+        }
+        let dag = typed_witness_host(&t);
+        let p = match Prog::new(&dag, fam) {
+            Some(p) if p.arrows[0].1 == t => p,
+            _ => {
+                out.violation("typed:host", leg, format!("witness : 1 -> {t}"), "the reference does not give the host's witness node the intended type".into());
+                continue;
+            }
+        };
+        let w2 = (0..dag.len()).filter(|i| dag[*i].sym == Sym::Witness).nth(1).unwrap();
+        let follower = RV::pair(&RV::word(1, 3), &RV::unit());
+        for v in values_of(&t, 4096).0 {
+            let mut wit = vec![None; dag.len()];
+            wit[0] = Some(v.clone());
+            wit[w2] = Some(follower.clone());
+            let label = || format!("witness : 1 -> {t} = {v} (followed by a witness 0b11 : 2^2 * 1)");
+            if !ctx.begin(leg, &label) {
+                continue;
+            }
+            out.evaluations += 1;
+            out.states += 1;
+            out.nontrivial += 1;
+            match guard(|| redeem_roundtrip(&p, &wit, &jets, out)) {
+                Ok(Ok(())) => {
+                    out.outcome("typed:ok");
+                    out.sample(leg, || (label(), "round trip ok".into()));
+                }
+                Ok(Err((c, d))) => out.violation(&c, leg, label(), d),
+                Err(e) => out.violation(&panic_class(&e), leg, label(), e),
+            }
+            ctx.end();
+        }
+    }
 }
